@@ -36,6 +36,31 @@ RE_FLOW = re.compile(
 )
 
 
+def _option_line(key: str, value: str | None) -> str:
+    """Create a directive option line, for a HTML attribute.
+
+    If the value would not be read back unchanged as a plain scalar
+    (e.g. it contains ` #`, starts with a quote or `|`, or has leading spaces or newlines),
+    it is written as a double-quoted scalar.
+    """
+    if not value:
+        return f":{key}:"
+    if (
+        value == value.strip()
+        and value[0] not in "|>'\"#"
+        and " #" not in value
+        and value.isprintable()
+    ):
+        return f":{key}: {value}"
+    quoted = "".join(
+        f"\\{char}"
+        if char in '"\\'
+        else (char if char.isprintable() else f"\\U{ord(char):08X}")
+        for char in value
+    )
+    return f':{key}: "{quoted}"'
+
+
 def default_html(text: str, source: str, line_number: int) -> list[nodes.Element]:
     raw_html = nodes.raw("", text, format="html")
     raw_html.source = source
@@ -92,7 +117,7 @@ def html_to_nodes(
                     )
                 ]
             content = "\n".join(
-                f":{k}: {v}"
+                _option_line(k, v)
                 for k, v in sorted(child.attrs.items())
                 if k in OPTION_KEYS_IMAGE
             )
@@ -116,7 +141,7 @@ def html_to_nodes(
             )
 
             options = "\n".join(
-                f":{k}: {v}"
+                _option_line(k, v)
                 for k, v in sorted(child.attrs.items())
                 if k in OPTION_KEYS_ADMONITION
             ).rstrip()
